@@ -454,6 +454,69 @@ func (g *c12gen) fixedCases() {
 	}
 }
 
+// Streams that hold a stored VAA vaa.Unmarshal rejects - an empty payload (Marshal writes what Unmarshal refuses), a version
+// other than 1 - as their lowest / a middle / their highest / their only sequence, next to a look-alike stream that decodes.
+// The lookup returns such a VAA byte-exact; the gap query may fail (it makes no statement then), but a report it does give
+// has to be the stream's.  Also: the record overwritten by a VAA that decodes (an ordinary stream again) and the reverse.
+func (g *c12gen) undecodableCases() {
+	type spec struct {
+		seqs []uint64
+		bad  int // index into seqs of the undecodable record
+	}
+	mkBad := func(s c12stream, seq uint64, kind int) *vaa.VAA {
+		v := g.mkSigned(s, seq)
+		switch kind {
+		case 0:
+			v.Payload = nil
+		case 1:
+			v.Payload = []byte{}
+		case 2:
+			v.Version = 2
+		case 3:
+			v.Version = 0
+		}
+		return v
+	}
+	n := 0
+	for kind := 0; kind < 4; kind++ {
+		for _, sp := range []spec{{[]uint64{0, 3, 4, 8}, 0}, {[]uint64{1, 3, 4, 8}, 0}, {[]uint64{0, 3, 4, 8}, 2}, {[]uint64{0, 3, 4, 8}, 3}, {[]uint64{1, 2, 6}, 2}, {[]uint64{5}, 0}} {
+			n++
+			if kind%2 == 1 && n%2 == 0 {
+				continue // the second spelling of a kind only on every other shape
+			}
+			g.newCase("und")
+			grp := c12groups[g.r.Intn(len(c12groups))]
+			var a vaa.Address
+			copy(a[:], g.bytesN(32))
+			u := &c12uni{ecs: []vaa.ChainID{vaa.ChainID(grp[1])}, addrs: []vaa.Address{a, c12govAddr}, tcs: []vaa.ChainID{vaa.ChainID(grp[0]), vaa.ChainID(grp[1]), vaa.ChainID(grp[2])},
+				seqs: []uint64{0, 1, 2, 3, 4, 5, 6, 7, 8, 9}}
+			s := c12stream{u.ecs[0], a, u.tcs[0]}
+			for i, sq := range sp.seqs {
+				if i == sp.bad {
+					g.put(mkBad(s, sq, kind))
+				} else {
+					g.put(g.mkSigned(s, sq))
+				}
+				// the look-alike stream (target chain rendering extends the queried one) and the governance emitter
+				g.put(g.mkSigned(c12stream{u.ecs[0], a, u.tcs[1]}, sq+1))
+				g.put(g.mkSigned(c12stream{u.ecs[0], c12govAddr, u.tcs[0]}, sq+2))
+			}
+			g.sweep(u, true)
+			switch n % 3 {
+			case 0:
+				// overwritten by a VAA that decodes
+				g.put(g.mkSigned(s, sp.seqs[sp.bad]))
+				g.gap(s)
+			case 1:
+				// a decodable record of the stream overwritten by one that does not decode
+				g.put(mkBad(s, sp.seqs[len(sp.seqs)-1], kind))
+				g.gap(s)
+				g.get(vaa.VAAID{EmitterChain: s.ec, EmitterAddress: s.addr, TargetChain: s.tc, Sequence: sp.seqs[len(sp.seqs)-1]})
+			}
+		}
+	}
+}
+
 // like mkVAA but always signed with a non-empty payload
 func (g *c12gen) mkSigned(s c12stream, seq uint64) *vaa.VAA {
 	for {
@@ -578,6 +641,12 @@ func TestVerifDb(t *testing.T) {
 	g.sweep(g.universe(3), true)
 
 	g.fixedCases()
+	// (drawn from a generator of its own so that the PRNG-driven cases below stay what they were)
+	{
+		g2 := &c12gen{r: rand.New(rand.NewSource(seed ^ 0x6d2b79f5)), w: w, d: d, dist: g.dist, n: g.n}
+		g2.undecodableCases()
+		g.n = g2.n
+	}
 	for i := 0; i < nmix; i++ {
 		g.mixCase(30+g.r.Intn(50), 3+g.r.Intn(12))
 	}
